@@ -87,6 +87,11 @@ impl C08 {
             let victim = ["a", "victim-queue"][(splitmix(&mut rng) % 2) as usize];
             exec.step_concrete(COp::Create { q: QName::plain(victim) })?;
             exec.step_concrete(COp::Create { q: QName::plain("b") })?;
+            // the victim has used and truncated positions 0 and 1 (the decoy claims one of them), and will hold a later
+            // record written AFTER the host record, so that no position entry resets it at the next GC
+            exec.step_concrete(COp::Append { q: QName::plain(victim), pos: None, batch: vec![Pay { len: 20, seed: 3, style: 0 }, Pay { len: 30, seed: 4, style: 0 }] })?;
+            exec.step_concrete(COp::Truncate { q: QName::plain(victim), pos: 1 })?;
+            let decoy_position = splitmix(&mut rng) % 2;
             // bring the cursor into the last block of the current file
             let target = file_bytes - crate::util::BLOCK + 200 + (splitmix(&mut rng) % 20_000) as usize;
             let cursor = exec.driver.global_cursor() as usize % file_bytes;
@@ -103,7 +108,7 @@ impl C08 {
                 env.class("decoy:orphan-alignment-skipped");
                 continue;
             }
-            let decoy_entry = craft_entry(4, DECOY_POSITION, victim.as_bytes(), &craft_batch(&[(DECOY_POSITION, DECOY_PAYLOAD.to_vec())]));
+            let decoy_entry = craft_entry(4, decoy_position, victim.as_bytes(), &craft_batch(&[(decoy_position, DECOY_PAYLOAD.to_vec())]));
             // host entry = 11 + "b" + 12 + filler + image; its first frame fills the file exactly
             let filler_len = room - FRAME_HEADER - (11 + 1 + 12);
             let mut host = crate::util::fill(splitmix(&mut rng), filler_len, 0);
@@ -123,6 +128,8 @@ impl C08 {
                 env.class("decoy:orphan-layout-skipped");
                 continue;
             }
+            // the victim's live record, in the new file
+            exec.step_concrete(COp::Append { q: QName::plain(victim), pos: None, batch: vec![Pay { len: 40, seed: 5, style: 0 }] })?;
             // truncate b entirely: the first file becomes collectable, GC unlinks it
             {
                 let log = exec.driver.log.as_mut().unwrap();
@@ -148,7 +155,7 @@ impl C08 {
                 Err(_) => continue,
             };
             if let Some(queue) = reopened.get(victim) {
-                if let Some((pos, bytes)) = queue.recs.first() {
+                if let Some((pos, bytes)) = queue.recs.iter().find(|(pos, _)| *pos < 2) {
                     return Err(CaseError::Violation(Box::new(Failure {
                         msg: format!("orphan-tail campaign variant {variant}: a record of queue \"b\" straddled a file boundary, its tail being the byte image of an entry for queue {victim:?}; after truncating \"b\", GC of the first file and a clean restart, queue {victim:?} returns a record at position {pos} ({} bytes) that was never appended", bytes.len()),
                         signature: "phantom-record-from-orphan-tail".to_string(),
@@ -245,7 +252,9 @@ impl Property for C08 {
             // the host record: prefix ++ embedded frame ++ suffix, appended through the raw API
             let prefix_len = (splitmix(&mut rng) % 200) as usize;
             let suffix_len = (splitmix(&mut rng) % 200) as usize;
-            let decoy_entry = craft_entry(4, DECOY_POSITION, queue.as_bytes(), &craft_batch(&[(DECOY_POSITION, DECOY_PAYLOAD.to_vec())]));
+            // the decoy entry addresses the host's own queue, or (mode B, every other variant) a queue that was never created
+            let decoy_queue: &str = if variant % 3 == 2 && variant % 2 == 0 { "ghost-never-created" } else { queue };
+            let decoy_entry = craft_entry(4, DECOY_POSITION, decoy_queue.as_bytes(), &craft_batch(&[(DECOY_POSITION, DECOY_PAYLOAD.to_vec())]));
             let embedded = craft_frame(1, &decoy_entry);
             // Mode B (one variant in three): the host record is split over two frames exactly where the raw image of
             // the decoy ENTRY starts, and the type byte of its Last frame is overwritten with Full. The frame CRC covers
@@ -319,7 +328,7 @@ impl Property for C08 {
                 Err(_) => continue,
             };
             if let Err((msg, name, pos, bytes)) = check_no_phantom(&set, &state) {
-                let is_decoy = name == queue && pos == DECOY_POSITION && &bytes[..] == DECOY_PAYLOAD;
+                let is_decoy = name == decoy_queue && pos == DECOY_POSITION && &bytes[..] == DECOY_PAYLOAD;
                 let is_decoy = is_decoy && !retype_mode;
                 let signature = if is_decoy { "decoy-resync" } else { "phantom-record" };
                 let failure = Failure {
